@@ -13,6 +13,12 @@ Theorem C20_header_objects_fully_initialised : local_headers_ok = true /\ codec_
 Proof. vm_compute. split; reflexivity. Qed.
 Print Assumptions C20_header_objects_fully_initialised.
 
+(* every scalar data member of every library class has a default member initialiser (allowed exceptions are listed with their reason in
+   Inventory.uninit_allowed): objects value-initialised by containers (the reassembly table) or default-constructed hold no indeterminate value *)
+Theorem C20_all_scalar_members_initialised : members_ok = true.
+Proof. vm_compute. reflexivity. Qed.
+Print Assumptions C20_all_scalar_members_initialised.
+
 (* every byte of every frame of the encoder model is a byte value determined by the inputs: the models have no heap; the frame is
    header ++ per-item (message header ++ payload slice) ++ zeros. Stated as: frame bytes are bytes_ok whenever the inputs are. *)
 Definition item_in (i : item) : Prop :=
